@@ -565,11 +565,13 @@ def mbox_gated_worker(bdir, tier, lo, hi):
                 if not held:
                     if all(pid in ctl.status for pid in pids):
                         break
-                    # everybody alive is blocked: only possible if the holder is gone without releasing - the kernel
-                    # releases at exit, so wait for the exit message
-                    if not ctl.settle(pids, wall=5.0) or not ctl.held():
-                        if all(pid in ctl.status for pid in pids):
-                            break
+                    # everybody alive waits inside flock: the holder has just gone (the kernel releases its lock at
+                    # exit); wait for the return of one of those calls
+                    t_end = time.time() + 30
+                    while time.time() < t_end and not ctl.held() and not all(pid in ctl.status for pid in pids):
+                        ctl.pump(0.005)
+                        ctl.reap(pids)
+                    if not ctl.held() and not all(pid in ctl.status for pid in pids):
                         hang = True
                         break
                     continue
@@ -609,7 +611,7 @@ def mbox_gated_worker(bdir, tier, lo, hi):
                 # a critical section has just ended? then the mailbox must be whole entries of the finished deliveries
                 ctl.reap(pids)
             if hang:
-                res.inconclusive.append("gated mbox run %d did not settle" % idx)
+                res.inconclusive.append("gated mbox run %d did not settle: %r grants=%r" % (idx, [(p_.role, p_.pid, (p_.held or {}).get("c"), (p_.inflight or {}).get("c"), p_.blocked, p_.gone) for p_ in ctl.procs], ctl.grants[-8:]))
                 continue
             res.evaluations += 1
             sts = [ctl.status.get(pid) for pid in pids]
@@ -663,19 +665,26 @@ def main(tier):
     res.merge(core.pmap(maildir_worker, [(b.dir, tier, lo, hi) for lo, hi in core.chunks(n_md, 30)], timeout=3000))
     res.merge(core.pmap(mbox_worker, [(b.dir, tier, lo, hi) for lo, hi in core.chunks(n_mb, 30)], timeout=3000))
     res.merge(core.pmap(mbox_concurrent_worker, [(b.dir, tier, lo, hi) for lo, hi in core.chunks(n_cc, 16)], timeout=3000))
-    if not res.counters.get("maildir_crash_points_fired") or not res.counters.get("faults_fired_by_site") or not res.counters.get("concurrent_lock_intervals_checked"):
+    n_g = core.scaled(640 if quick else 16000)
+    res.merge(core.pmap(mbox_gated_worker, [(b.dir, tier, lo, hi) for lo, hi in core.chunks(n_g, 40)], timeout=3000))
+    if not res.counters.get("maildir_crash_points_fired") or not res.counters.get("faults_fired_by_site") or not res.counters.get("concurrent_lock_intervals_checked") \
+            or not res.counters.get("gated_flocks_that_had_to_wait"):
         res.inconclusive.append("no crash point / fault fired or no lock interval observed: the instrumentation is not active")
         res.distinct = set()
     rule = ("messages: empty, no final newline, From_/>From_/>>From_ lines, NUL and 8-bit, sizes around the 1024-byte buffers; senders "
             "with spaces, tabs, newlines, empty, #@[]; recipients with newline/space. Maildir: reference run, SIGKILL before every "
             "mutating libc call (new/ judged under 3 disk variants), one injected fault per call site. Mbox: mailboxes built from 3 "
             "deliveries judged by the mbox(5) reader after each, one injected write/fsync fault per call (size restored, exit 111), "
-            "2-3 genuinely concurrent deliveries (reader + lock-interval monitor over the event log). Non-trivial/distinct = "
-            "(input, call index, action) whose injection fired, reference runs, concurrent runs.")
+            "2-3 genuinely concurrent deliveries (reader + lock-interval monitor over the event log), and 2-3 deliveries under "
+            "CONTROLLED interleaving (every open/flock/write/fsync/ftruncate/close held at the shim's gate and released one at a "
+            "time by a seeded scheduler, uniform or priority-with-change-points, optionally one failing write/fsync; distinct = the "
+            "released call sequence). Non-trivial/distinct = (input, call index, action) whose injection fired, reference runs, "
+            "concurrent runs, distinct gated schedules.")
     return core.finish(PROP, tier, "fault_enumeration", res, rule, t0, assumptions=[
         "crash/fault injection at the libc boundary (LD_PRELOAD shim); disk model as conf-qmail states",
         "Return-Path content is compared exactly only for senders without special characters (quoting is C17's subject)",
-        "concurrent mbox deliveries are really concurrent processes (not gated); the lock-interval monitor uses the shim's global sequence numbers"])
+        "the free-running concurrent mbox deliveries are really concurrent processes; their lock-interval monitor uses the shim's global sequence numbers",
+        "controlled interleavings are at libc-call granularity; a flock released while another delivery holds the lock is expected to block"])
 
 
 def replay(path):
